@@ -980,3 +980,46 @@ Theorem C11_empty_key_refuted :
   ti_valid tb (ti_seek_last tb) = false /\
   t_get tb [] = GNotFound /\ t_get tb [97] = GNotFound.
 Proof. vm_compute. repeat split. Qed.
+
+(* ------------------------------------------------------------------------------------- *)
+(* 12. the statements exported to Props/C11.v for the written table                       *)
+(* ------------------------------------------------------------------------------------- *)
+
+Theorem thm_iterate : forall fh bloom es,
+  ascending es = true -> forallb wf_sentry es = true ->
+  let tb := write fh bloom es in
+  collect tb (S (length es)) (ti_seek_first tb) = es /\
+  collect tb (S (length es)) (fst (ti_next tb (ti_new tb))) = es.
+Proof. intros fh bloom es A W. apply write_iterate; [exact A|apply wf_keys_ok; exact W]. Qed.
+
+Theorem thm_seek : forall fh bloom es t,
+  ascending es = true -> forallb wf_sentry es = true -> es <> [] ->
+  let tb := write fh bloom es in
+  ti_cur tb (fst (ti_seek tb t)) = first_ge t es /\
+  snd (ti_seek tb t) = ti_valid tb (fst (ti_seek tb t)).
+Proof.
+  intros fh bloom es t A W N. destruct (write_seek fh bloom es t A (wf_keys_ok _ W) N) as (_ & H1 & H2 & _).
+  split; assumption.
+Qed.
+
+Theorem thm_next_after_seek : forall fh bloom es t,
+  ascending es = true -> forallb wf_sentry es = true -> es <> [] ->
+  let tb := write fh bloom es in
+  collect tb (S (length es)) (fst (ti_seek tb t)) = drop_lt t es /\
+  forall n, ti_cur tb (nexts tb n (fst (ti_seek tb t))) = nth_error (drop_lt t es) n.
+Proof.
+  intros fh bloom es t A W N. destruct (write_seek fh bloom es t A (wf_keys_ok _ W) N) as (H0 & _ & _ & H3).
+  split; assumption.
+Qed.
+
+Theorem thm_seek_last : forall fh bloom es,
+  ascending es = true -> forallb wf_sentry es = true -> es <> [] ->
+  let tb := write fh bloom es in
+  ti_cur tb (ti_seek_last tb) = Some (last es (mkS [] 0 None)) /\
+  ti_next tb (ti_seek_last tb) = (st_end, false) /\ ti_valid tb st_end = false.
+Proof. intros fh bloom es A W N. apply write_seek_last; [exact A|apply wf_keys_ok; exact W|exact N]. Qed.
+
+Theorem thm_get : forall fh, (forall b e, In e b -> fh b (sk e) = true) ->
+  forall bloom es k, ascending es = true -> forallb wf_sentry es = true ->
+  t_get (write fh bloom es) k = lookup k es.
+Proof. intros fh Hf bloom es k A W. apply write_get; [exact Hf|exact A|apply wf_keys_ok; exact W]. Qed.
